@@ -203,7 +203,7 @@ def run(ctx):
     k = 0
     for cnd in conds:
         for v in vals:
-            for form in ("while", "if", "while-closure"):
+            for form in ("while", "if", "while-closure", "if-const", "while-const"):
                 k += 1
                 did = "d%d" % k
                 refc = cnd.replace(",=", "(get FV 0)").replace(",not=", "(get FV 1)")
@@ -213,6 +213,13 @@ def run(ctx):
                 elif form == "while-closure":
                     comp = "(eval ~(do (var x %s) (var n 0) (def fs @[]) (while %s (def y n) (array/push fs (fn [] y)) (++ n) (set x (if (= n 1) false nil)) (if (> n 3) (break))) [n (length fs)]))" % (v, cnd.replace("X", "x"))
                     ref = "(do (var x %s) (var n 0) (def fs @[]) (while %s (def y n) (array/push fs (fn [] y)) (++ n) (set x (if (= n 1) false nil)) (if (> n 3) (break))) [n (length fs)])" % (v, refc.replace("X", "x"))
+                elif form == "if-const":
+                    # the operand is a compile-time constant: the compiler folds the test
+                    comp = "(eval ~(if %s :t :f))" % cnd.replace("X", v)
+                    ref = "(if %s :t :f)" % refc.replace("X", v)
+                elif form == "while-const":
+                    comp = "(eval ~(do (var n 0) (while %s (++ n) (if (> n 2) (break))) n))" % cnd.replace("X", v)
+                    ref = "(do (var n 0) (while %s (++ n) (if (> n 2) (break))) n)" % refc.replace("X", v)
                 else:
                     comp = "(eval ~(do (def x %s) (if %s :t :f)))" % (v, cnd.replace("X", "x"))
                     ref = "(do (def x %s) (if %s :t :f))" % (v, refc.replace("X", "x"))
